@@ -5,6 +5,7 @@ import (
 	"go/token"
 	"go/types"
 	"sort"
+	"strings"
 
 	"golang.org/x/tools/go/ssa"
 )
@@ -699,6 +700,50 @@ func c03argument(p *Program, r *Report, name string, g *polyGuard, R *ssa.Functi
 			_ = x
 		}
 		r.Add("C03.accept", FnName(g.call.Parent()), name+": the decoder verifies over all decoded symbols", g.call.Pos(), whole, "payload argument is the complete symbol array, not a window of it: "+exprString(a))
+		// round 6 (C03-agent6-m3): what is verified is what was read — every store into the symbol array is the
+		// table value of an input character; a "canonicalisation" of padding bits between decoding and verification
+		// takes those bits out of the checksum's protection
+		if ms, ok := a.(*ssa.MakeSlice); ok {
+			var foreign []string
+			nst := 0
+			for _, ref := range *ms.Referrers() {
+				ia, ok := ref.(*ssa.IndexAddr)
+				if !ok {
+					continue
+				}
+				for _, r2 := range *ia.Referrers() {
+					st, ok := r2.(*ssa.Store)
+					if !ok || st.Addr != ssa.Value(ia) {
+						continue
+					}
+					nst++
+					v := stripIntConv(st.Val)
+					fromTable := false
+					if ld, ok := v.(*ssa.UnOp); ok && ld.Op == token.MUL {
+						if tia, ok := ld.X.(*ssa.IndexAddr); ok {
+							if _, isG := tia.X.(*ssa.Global); isG {
+								fromTable = true
+							}
+						}
+					}
+					if ix, ok := v.(*ssa.Index); ok {
+						if ld, ok := ix.X.(*ssa.UnOp); ok {
+							if _, isG := ld.X.(*ssa.Global); isG {
+								fromTable = true
+							}
+						}
+					}
+					if !fromTable {
+						foreign = append(foreign, exprString(st.Val)+" at "+r.P.Pos(st.Pos()))
+					}
+				}
+			}
+			if nst > 0 {
+				sort.Strings(foreign)
+				r.Add("C03.accept", FnName(g.call.Parent()), name+": every symbol that is verified is the table value of an input character, unmodified", g.call.Pos(), len(foreign) == 0,
+					"other stores into the symbol array before verification: "+strings.Join(foreign, "; "))
+			}
+		}
 	}
 }
 
